@@ -31,7 +31,23 @@ ASSUMPTIONS = [
     'cross-check match strings are not asserted',
 ]
 
-KINDS = {'s': 'sleep', 'p': 'spin', 'a': 'allocate', 'v': 'sigsegv', 'k': 'sigkill'}
+KINDS = {'s': 'sleep', 'p': 'spin', 'a': 'allocate', 'v': 'sigsegv', 'k': 'sigkill', 'w': 'wrapper-with-hanging-child'}
+
+
+def kill_hanging_children():
+    """Kill the 'sleep 987654' processes the wrapper fault leaves behind in
+    *this* process group (exact command line match, no pattern kill)."""
+    me = os.getpgrp()
+    for pid in os.listdir('/proc'):
+        if not pid.isdigit():
+            continue
+        try:
+            with open(f'/proc/{pid}/cmdline', 'rb') as f:
+                cl = f.read()
+            if cl == b'sleep\x00987654\x00' and os.getpgid(int(pid)) == me:
+                os.kill(int(pid), 9)
+        except (OSError, ValueError):
+            pass
 
 
 def component(dd, ctx, acc):
@@ -40,7 +56,7 @@ def component(dd, ctx, acc):
     fn = os.path.join(wd, 'cand.smt2')
     with open(fn, 'w') as f:
         f.write('(assert true)\n')
-    for kind in 'spavk':
+    for kind in 'spavkw':
         for memout in (None, 200):
             if kind == 'a' and memout is None:
                 continue
@@ -109,13 +125,15 @@ def component(dd, ctx, acc):
                     os.kill(pid, 9)
                 except OSError:
                     pass
-            if kind in 'sp' or (kind == 'a' and False):
-                if not (ri.out is None and ri.err is None):
+            if kind in 'spw':
+                if not (ri.exit is None and ri.out is None and ri.err is None):
                     acc.violation(f'component-runinfo/{KINDS[kind]}', f'timed-out run recorded as {ri!r}', case)
             if kind in 'vk' and (ri.exit is None or ri.exit >= 0):
                 acc.violation(f'component-runinfo/{KINDS[kind]}', f'signal death recorded as {ri!r}', case)
             if kind == 'a' and ri.exit == 0:
                 acc.violation(f'component-runinfo/{KINDS[kind]}', f'allocating run recorded as {ri!r}', case)
+            if kind == 'w':
+                kill_hanging_children()
             acc.case(case, nontrivial=True, classes=['component', 'component-' + KINDS[kind]])
             # reap zombies left by proc.kill() without wait()
             try:
@@ -129,7 +147,7 @@ def component(dd, ctx, acc):
 def fault_case(draw):
     c = draw(gen_run.run_case(jobs=(1, 3), formats=('default', ), with_cc=False, with_delay=False,
                               comparisons=False, max_asserts=4, kinds=['monotone', 'mixed', 'hash']))
-    kinds = draw(st.lists(st.sampled_from('spavk'), min_size=1, max_size=3, unique=True))
+    kinds = draw(st.lists(st.sampled_from('spavkw'), min_size=1, max_size=3, unique=True))
     mod = draw(st.sampled_from([12, 16, 24]))
     th = vspec.token_hash(vspec.tokens_of_text(c['text']))
     # choose a salt under which the original itself is not faulty
@@ -138,6 +156,14 @@ def fault_case(draw):
     free = [k for k in range(mod) if k != vspec.mix(th, salt) % mod]
     for i, k in enumerate(kinds):
         classes[str(free[(i * 5 + 1) % len(free)])] = k
+    c['golden_fault'] = None
+    if draw(st.integers(0, 3)) == 0:
+        # the golden run itself dies from a signal (quickly): candidates that die
+        # the same way match, candidates that time out do not
+        gk = draw(st.sampled_from('kv'))
+        classes[str(vspec.mix(th, salt) % mod)] = gk
+        c['golden_fault'] = gk
+        c['opts']['ignore_output'] = True
     c['spec']['fault'] = [salt, mod, classes]
     c['opts']['timeout'] = draw(st.sampled_from([0.3, 0.5]))
     if 'a' in kinds or draw(st.booleans()):
@@ -161,7 +187,8 @@ def run_fault_case(case, acc, wd):
     seen_kinds = sorted(set(faults.values()))
     classes += ['fault-' + KINDS[k] for k in seen_kinds]
     if r.timed_out:
-        old = [s for s in getattr(r, 'survivors_at_timeout', []) if 'binary' in s[2] and s[3] > 10 * limit]
+        old = [s for s in getattr(r, 'survivors_at_timeout', [])
+               if ('binary' in s[2] or 'sleep 987654' in s[2]) and s[3] > 10 * limit]
         if old:
             acc.violation('stall', f'ddSMT still running after 75 s; command child older than 10x the limit: {old[:2]}', case)
         else:
@@ -179,9 +206,10 @@ def run_fault_case(case, acc, wd):
         else:
             acc.violation('exit-status', f'run with faulty candidates ended with status {r.after["rc"]}: {r.stderr[-300:]!r}', case)
     for e in r.trace:
-        if e['e'] == 'Wb' and e['tok'] in faults:
+        if e['e'] == 'Wb' and e['tok'] in faults and faults[e['tok']] != case.get('golden_fault'):
             acc.violation(f'adopted/{KINDS[faults[e["tok"]]]}',
                           f'a candidate on which the command {KINDS[faults[e["tok"]]]}s was written to the output file', case)
+    r.survivors = [x for x in r.survivors if 'sleep 987654' not in x[2]]
     if r.survivors:
         acc.violation('survivor', f'processes alive after ddSMT exited: {r.survivors[:3]}', case)
     bound = len(r.log) * limit + 45
